@@ -115,6 +115,7 @@ package parser
 //@   property C14
 //@   requires wfLex(l)
 //@   assigns l.pos, l.start, l.width, l.head, elems(l.tokens)
+//@   decreases len(l.input) - l.pos
 //@   loop 1 invariant wfLex(l) && l.pos > old(l.pos)
 //@   loop 1 decreases len(l.input) - l.pos
 //@   ensures wfLex(l) && l.pos >= old(l.pos)
